@@ -3,12 +3,50 @@ import KinModel.Conc
 import KinModel.ConcCase
 namespace KinModel.Conc
 
-theorem cache_cell_ge (c : CaseM) : ∀ x : Nat, x ∈ (caseCfg c).cache → 10 ≤ x ∧ x % 2 = 1 := by
+theorem cache_cell_ge (c : CaseM) : ∀ x : Nat, x ∈ (caseCfg c).cache → 10 ≤ x ∧ x % 3 = 2 := by
   intro x hx
   simp only [caseCfg, List.mem_map] at hx
   obtain ⟨o, _, rfl⟩ := hx
-  show 10 ≤ 11 + 2 * o.genType ∧ (11 + 2 * o.genType) % 2 = 1
+  show 10 ≤ 11 + 3 * o.genType ∧ (11 + 3 * o.genType) % 3 = 2
   omega
+
+/-- the value the configuration determines for a cell: a type cell of some operation, and then `genType + 1` -/
+theorem det_lookup_some (ops : List OpM) (x d : Nat)
+    (h : (ops.map (fun o => (typeCell o.genType, o.genType + 1))).lookup x = some d) :
+    ∃ t, x = typeCell t ∧ d = t + 1 := by
+  induction ops with
+  | nil => simp at h
+  | cons o os ih =>
+    simp only [List.map_cons, List.lookup_cons] at h
+    split at h
+    · rename_i heq
+      simp only [Option.some.injEq] at h
+      exact ⟨o.genType, by simpa using heq, h.symm⟩
+    · exact ih h
+
+theorem det_lookup_mem (ops : List OpM) (o : OpM) (ho : o ∈ ops) :
+    (ops.map (fun o => (typeCell o.genType, o.genType + 1))).lookup (typeCell o.genType) = some (o.genType + 1) := by
+  induction ops with
+  | nil => simp at ho
+  | cons p ps ih =>
+    simp only [List.map_cons, List.lookup_cons]
+    by_cases hp : typeCell o.genType == typeCell p.genType
+    · simp only [hp]
+      have : o.genType = p.genType := by
+        have h1 : (11 + 3 * o.genType : Nat) = 11 + 3 * p.genType := beq_iff_eq.mp hp
+        omega
+      rw [this]
+    · simp only [hp]
+      rcases List.mem_cons.mp ho with rfl | hm
+      · simp at hp
+      · exact ih hm
+
+theorem det_none_small (c : CaseM) (x : Nat) (h : x < 10) : (caseCfg c).det.lookup x = none := by
+  cases hl : (caseCfg c).det.lookup x with
+  | none => rfl
+  | some d =>
+    obtain ⟨t, rfl, _⟩ := det_lookup_some c.ops x d hl
+    simp only [typeCell] at h; omega
 
 theorem small_not_cache (c : CaseM) (x : Nat) (h : x < 10) : (caseCfg c).cache.contains x = false := by
   cases hc : (caseCfg c).cache.contains x with
@@ -24,17 +62,25 @@ theorem opActs_clean (c : CaseM) (tid : Nat) (o : OpM) (ho : o ∈ c.ops) :
   have rd : ∀ x : Nat, x < 10 → cleanAct (caseCfg c) (.read x) = true := by
     intro x hlt; simp [cleanAct, small_not_mem c x hlt]
   simp only [opActs, List.mem_append] at ha
-  rcases ha with ((((ha | ha) | ha) | ha) | ha) | ha
+  rcases ha with ((((((ha | ha) | ha) | ha) | ha) | ha) | ha) | ha
   · simp only [List.mem_singleton] at ha; subst ha; exact rd 0 (by omega)
   · split at ha
     · simp only [List.mem_singleton] at ha; subst ha; exact rd 1 (by omega)
+    · simp at ha
+  · split at ha
+    · obtain ⟨d, rfl, _, _⟩ := mem_readsFrom (sliceCell o.item) _ _ a ha
+      have hn : sliceCell o.item d ∉ (caseCfg c).cache := fun hm => by
+        have h := (cache_cell_ge c (sliceCell o.item d) hm).2
+        have : (12 + 3 * (64 * o.item + d)) % 3 = 2 := h
+        omega
+      simp [cleanAct, hn]
     · simp at ha
   · split at ha
     · simp only [List.mem_map] at ha
       obtain ⟨p, _, rfl⟩ := ha
       have hn : patCell p ∉ (caseCfg c).cache := fun hm => by
         have h := (cache_cell_ge c (patCell p) hm).2
-        have : (10 + 2 * p) % 2 = 1 := h
+        have : (10 + 3 * p) % 3 = 2 := h
         omega
       simp [cleanAct, hn]
     · simp at ha
@@ -42,17 +88,25 @@ theorem opActs_clean (c : CaseM) (tid : Nat) (o : OpM) (ho : o ∈ c.ops) :
     · simp only [List.mem_singleton] at ha; subst ha
       have h2 := small_not_mem c 2 (by omega)
       have : (caseCfg c).lazy.contains uniqCell = true := by simp [caseCfg]
-      simp only [cleanAct, this, Bool.true_and]
+      have hd : detOK (caseCfg c) uniqCell 7 = true := by
+        simp [detOK, det_none_small c uniqCell (by decide)]
+      simp only [cleanAct, this, hd, Bool.true_and, Bool.and_true]
       show (!(caseCfg c).cache.contains 2) = true
       simp [h2]
     · simp at ha
   · split at ha
     · simp only [List.mem_singleton] at ha; subst ha
-      simp only [cleanAct, List.contains_iff_mem, caseCfg, List.mem_map]
-      exact ⟨o, ho, rfl⟩
+      have hm : typeCell o.genType ∈ (caseCfg c).cache := by
+        simp only [caseCfg, List.mem_map]
+        exact ⟨o, ho, rfl⟩
+      have hl : (caseCfg c).det.lookup (typeCell o.genType) = some (o.genType + 1) := det_lookup_mem c.ops o ho
+      simp [cleanAct, hm, hl]
     · simp at ha
   · split at ha
     · simp only [List.mem_singleton] at ha; subst ha; exact rd 3 (by omega)
+    · simp at ha
+  · split at ha
+    · simp only [List.mem_singleton] at ha; subst ha; exact rd 4 (by omega)
     · simp at ha
 
 /-- all actions of all live threads satisfy P -/
@@ -144,5 +198,105 @@ theorem sigma0_lazy (c : CaseM) : LazyInit (caseCfg c) sigma0 := by
   intro x hx
   simp only [caseCfg, List.mem_singleton] at hx
   subst hx; decide
+
+theorem sigma0_coherent (c : CaseM) : Coherent (caseCfg c) sigma0 := by
+  intro x d hd
+  obtain ⟨t, rfl, _⟩ := det_lookup_some c.ops x d hd
+  left
+  have h1 : typeCell t ≠ docCell := by show (11 + 3 * t : Nat) ≠ 0; omega
+  have h2 : typeCell t ≠ routerCell := by show (11 + 3 * t : Nat) ≠ 1; omega
+  have h3 : typeCell t ≠ uniqCell := by show (11 + 3 * t : Nat) ≠ 2; omega
+  simp [sigma0, h1, h2, h3]
+
+theorem cacheU_mem (c : CaseM) (x : Nat) (h : x ∈ (caseCfgU c).cache) : x = 2 ∨ (10 ≤ x ∧ x % 3 = 2) := by
+  simp only [caseCfgU, List.mem_cons, List.mem_map] at h
+  rcases h with rfl | ⟨o, _, rfl⟩
+  · left; rfl
+  · right; show 10 ≤ 11 + 3 * o.genType ∧ (11 + 3 * o.genType) % 3 = 2; omega
+
+theorem opActs_cleanU (c : CaseM) (tid : Nat) (o : OpM) (ho : o ∈ c.ops) :
+    ∀ a ∈ opActs tid o, cleanAct (caseCfgU c) (syncOf a) = true := by
+  intro a ha
+  have rd : ∀ x : Nat, x ≠ 2 → x % 3 ≠ 2 ∨ x < 10 → cleanAct (caseCfgU c) (syncOf (.read x)) = true := by
+    intro x h2 h3
+    have : x ∉ (caseCfgU c).cache := fun hm => by
+      rcases cacheU_mem c x hm with h | ⟨h, h'⟩
+      · exact h2 h
+      · omega
+    simp [syncOf, cleanAct, this]
+  simp only [opActs, List.mem_append] at ha
+  rcases ha with ((((((ha | ha) | ha) | ha) | ha) | ha) | ha) | ha
+  · simp only [List.mem_singleton] at ha; subst ha; exact rd 0 (by decide) (Or.inr (by decide))
+  · split at ha
+    · simp only [List.mem_singleton] at ha; subst ha; exact rd 1 (by decide) (Or.inr (by decide))
+    · simp at ha
+  · split at ha
+    · obtain ⟨d, rfl, _, _⟩ := mem_readsFrom (sliceCell o.item) _ _ a ha
+      refine rd _ ?_ (Or.inl ?_)
+      · show (12 + 3 * (64 * o.item + d) : Nat) ≠ 2; omega
+      · show (12 + 3 * (64 * o.item + d) : Nat) % 3 ≠ 2; omega
+    · simp at ha
+  · split at ha
+    · simp only [List.mem_map] at ha
+      obtain ⟨p, _, rfl⟩ := ha
+      have hn : patCell p ∉ (caseCfgU c).cache := fun hm => by
+        rcases cacheU_mem c _ hm with h | ⟨_, h'⟩
+        · have : (10 + 3 * p : Nat) = 2 := h; omega
+        · have : (10 + 3 * p : Nat) % 3 = 2 := h'; omega
+      simp [syncOf, cleanAct, hn]
+    · simp at ha
+  · split at ha
+    · simp only [List.mem_singleton] at ha; subst ha
+      simp [syncOf, cleanAct, caseCfgU, uniqCell]
+    · simp at ha
+  · split at ha
+    · simp only [List.mem_singleton] at ha; subst ha
+      have hm : typeCell o.genType ∈ (caseCfgU c).cache := by
+        simp only [caseCfgU, List.mem_cons, List.mem_map]
+        exact Or.inr ⟨o, ho, rfl⟩
+      have hne : (typeCell o.genType == uniqCell) = false := by
+        have : (11 + 3 * o.genType : Nat) ≠ 2 := by omega
+        simpa [typeCell, uniqCell] using this
+      have hl : (caseCfgU c).det.lookup (typeCell o.genType) = some (o.genType + 1) := by
+        simp only [caseCfgU, List.lookup_cons, hne]
+        exact det_lookup_mem c.ops o ho
+      simp [syncOf, cleanAct, hm, hl]
+    · simp at ha
+  · split at ha
+    · simp only [List.mem_singleton] at ha; subst ha; exact rd 3 (by decide) (Or.inr (by decide))
+    · simp at ha
+  · split at ha
+    · simp only [List.mem_singleton] at ha; subst ha; exact rd 4 (by decide) (Or.inr (by decide))
+    · simp at ha
+
+theorem caseTrace_cleanU (c : CaseM) : CleanTrace (caseCfgU c) (mapTrace (caseTrace c)) := by
+  intro x hmem
+  simp only [mapTrace, List.mem_map] at hmem
+  obtain ⟨y, hy, rfl⟩ := hmem
+  refine schedule_all (fun a => cleanAct (caseCfgU c) (syncOf a) = true) _ _ _ ?_ y hy
+  intro t ht a ha
+  simp only [caseThreads, List.mem_map] at ht
+  obtain ⟨j, _, rfl⟩ := ht
+  simp only [threadActs, List.mem_flatMap] at ha
+  obtain ⟨r, _, ha⟩ := ha
+  simp only [getOp] at ha
+  cases hget : c.ops[(j + r) % c.ops.length]? with
+  | none => simp [hget] at ha
+  | some o =>
+    simp only [hget] at ha
+    exact opActs_cleanU c j o (List.mem_of_getElem? hget) a ha
+
+theorem sigmaU_coherent (c : CaseM) : Coherent (caseCfgU c) sigmaU := by
+  intro x d hd
+  left
+  simp only [caseCfgU, List.lookup_cons] at hd
+  split at hd
+  · rename_i h
+    have : x = 2 := by simpa [uniqCell] using h
+    subst this; rfl
+  · obtain ⟨t, rfl, _⟩ := det_lookup_some c.ops x d hd
+    have h1 : typeCell t ≠ docCell := by show (11 + 3 * t : Nat) ≠ 0; omega
+    have h2 : typeCell t ≠ routerCell := by show (11 + 3 * t : Nat) ≠ 1; omega
+    simp [sigmaU, h1, h2]
 
 end KinModel.Conc
